@@ -54,17 +54,20 @@ class Executor:
         self.class_fields_hook: Dict[str, Callable] = {}  # external classes: name -> constructor handler
         self.global_axioms: List[z3.BoolRef] = []
         self._feas_cache: Dict[Any, bool] = {}
-        self.index_ctx = None
+        self.index_ctx: List[Any] = []
         self.skolems: List[Any] = []
         self._keep: List[Any] = []
 
     # ------------------------------------------------------------------------------------------------ utilities
     def fresh(self, name: str, sort=None):
         srt = sort if sort is not None else Sc
-        if self.index_ctx is not None:
-            # inside the generic element of a symbolic sequence: a function of the element's index
-            return z3.Function(f"{name}!{next(self._n)}", z3.IntSort(), srt)(self.index_ctx)
+        if self.index_ctx:
+            # inside the generic element of (nested) symbolic sequences: a function of the enclosing indices
+            return z3.Function(f"{name}!{next(self._n)}", *([z3.IntSort()] * len(self.index_ctx)), srt)(*self.index_ctx)
         return z3.Const(f"{name}!{next(self._n)}", srt)
+
+    def fresh_const(self, name: str, sort=None):
+        return z3.Const(f"{name}!{next(self._n)}", sort if sort is not None else Sc)
 
     def fresh_sv(self, name: str, ty: Optional[str] = None) -> SV:
         return SV(self.fresh(name), ty)
@@ -202,16 +205,19 @@ class Executor:
 
     # list-term helpers ---------------------------------------------------------------------------------------
     def lt_empty(self, st: State, lt: L.LT) -> z3.BoolRef:
-        return L.lt_empty(lt, lambda a: self._abs_pred("empty", a))
+        return L.lt_empty(lt, lambda a: self._abs_pred(st, "empty", a))
 
-    def _abs_pred(self, what: str, a: L.Abs, extra: Sequence[Any] = ()) -> z3.BoolRef:
-        args = [self._as_sc(x) for x in list(a.args) + list(extra)]
+    def _abs_pred(self, st: State, what: str, a: L.Abs, extra: Sequence[Any] = ()) -> z3.BoolRef:
+        args = [self._as_sc(st, x) for x in list(a.args) + list(extra)]
         return self.uf(f"{what}_{a.sym}", len(args), z3.BoolSort())(*args)
 
-    def _as_sc(self, v) -> z3.ExprRef:
+    def _as_sc(self, st: State, v) -> z3.ExprRef:
         if isinstance(v, SV):
             return v.t
         if isinstance(v, Ref):
+            o = st.heap.get(v.oid)
+            if isinstance(o, Obj) and o.ident is not None:
+                return o.ident
             return mk_i(-v.oid)  # identity of a heap object as an opaque scalar
         raise Unsupported(f"cannot pass {v!r} to an uninterpreted function")
 
@@ -674,6 +680,8 @@ class Executor:
             if isinstance(oa, ListObj) and isinstance(ob, ListObj):
                 return self.lt_eq(st, oa.lt, ob.lt)
             if isinstance(oa, Obj) and isinstance(ob, Obj):
+                if oa.ident is not None and ob.ident is not None and z3.eq(oa.ident, ob.ident):
+                    return z3.BoolVal(True)
                 return self.obj_eq(st, oa, ob)
             if isinstance(oa, DictObj) and isinstance(ob, DictObj):
                 return self.dict_eq(st, oa, ob)
@@ -713,6 +721,8 @@ class Executor:
         def implied(c1, c2) -> bool:
             s = z3.Solver()
             s.set("timeout", 3000)
+            for ax in self.global_axioms:
+                s.add(ax)
             s.add(*st.pc)
             s.add(c1 != c2)
             return s.check() == z3.unsat
@@ -734,7 +744,8 @@ class Executor:
             o = st.heap[v.oid]
             if isinstance(o, Obj):
                 n = Obj(o.cls, {k: self.subst(st, x, ivar, term) for k, x in o.fields.items()},
-                        z3.substitute(o.kind, (ivar, term)) if o.kind is not None else None, o.cands, o.tag)
+                        z3.substitute(o.kind, (ivar, term)) if o.kind is not None else None, o.cands, o.tag,
+                        z3.substitute(o.ident, (ivar, term)) if o.ident is not None else None)
                 return self.alloc(st, n)
             if isinstance(o, ListObj):
                 return self.alloc(st, ListObj(L.subst_lt(o.lt, ivar, term, lambda x, i, t: self.subst(st, x, i, t))))
@@ -762,16 +773,16 @@ class Executor:
             o = st.heap[container.oid]
             if isinstance(o, ListObj):
                 return L.lt_contains(o.lt, lambda x: self.eq(st, item, x),
-                                     lambda a: self._abs_pred("contains", a, [item]))
+                                     lambda a: self._abs_pred(st, "contains", a, [item]))
             if isinstance(o, DictObj):
                 d = [self.eq(st, item, k) for k, _ in o.entries]
                 if o.tail is not None:
                     d.append(L.lt_contains(o.tail, lambda x: self.eq(st, item, x.items[0]),
-                                           lambda a: self._abs_pred("haskey", a, [item])))
+                                           lambda a: self._abs_pred(st, "haskey", a, [item])))
                 return z3.Or(*d) if d else z3.BoolVal(False)
         if isinstance(container, L.LT):
             return L.lt_contains(container, lambda x: self.eq(st, item, x),
-                                 lambda a: self._abs_pred("contains", a, [item]))
+                                 lambda a: self._abs_pred(st, "contains", a, [item]))
         if isinstance(container, SV) and isinstance(item, SV):
             return z3.Contains(Sc.sv(container.t), Sc.sv(item.t))
         raise Unsupported(f"'in' on {container!r}")
@@ -938,7 +949,7 @@ class Executor:
             if not hit:
                 out.append(self.raise_(s, "KeyError", k if isinstance(k, SV) else sv_str("key")))
                 continue
-            j = self.fresh("hit", z3.IntSort())
+            j = self.fresh_const("hit", z3.IntSort())
             self.skolems.append(j)
             s.assume(z3.And(j >= 0, j < seg.n))
             pj = self.subst(s, pair, seg.ivar, j)
@@ -1048,7 +1059,7 @@ class Executor:
             lo, hi = src.data
             if z3.is_int_value(z3.simplify(lo)) and z3.is_int_value(z3.simplify(hi)):
                 return L.LT.of([sv_int(i) for i in range(z3.simplify(lo).as_long(), z3.simplify(hi).as_long())])
-            iv = self.fresh("r", z3.IntSort())
+            iv = self.fresh_const("r", z3.IntSort())
             if not z3.is_int_value(z3.simplify(lo)) or z3.simplify(lo).as_long() != 0:
                 raise Unsupported("symbolic range not starting at 0")
             return L.LT([L.MapSeg(iv, hi, L.LT([L.Unit(SV(mk_i(iv), "int"))]), "range")])
@@ -1114,21 +1125,36 @@ class Executor:
                     s.assume(z3.And(b[1] >= 0, b[1] < b[2]))
                 else:
                     s.assume(b[1])
-            rs = self.comp_item(s, g, elt, item)
+            saved_ctx = self.index_ctx
+            self.index_ctx = list(saved_ctx) + [b[1] for b in binders if b[0] == "bind"]
+            try:
+                rs = self.comp_item(s, g, elt, item)
+            finally:
+                self.index_ctx = saved_ctx
             segs = []
             for s2, r in rs:
                 if isinstance(r, Exc):
                     raise Unsupported("comprehension body may raise for a symbolic element")
-                guard = z3.And(*s2.pc[pc_len + len(binders):]) if len(s2.pc) > pc_len + len(binders) else z3.BoolVal(True)
+                dec, ax = s2.split(s2.pc[pc_len + len(binders):])
+                guard = z3.And(*dec) if dec else z3.BoolVal(True)
+                hoisted.extend((ax_, [b for b in binders if b[0] == "bind"]) for ax_ in ax)
                 # objects allocated in the body must be visible in the continuing state
                 for k, o in s2.heap.items():
                     st.heap.setdefault(k, o)
-                segs.append(L.Guard(guard, r))
+                if z3.is_true(z3.simplify(guard)):
+                    segs.append(r)
+                else:
+                    segs.append(L.Guard(guard, r))
             return L.LT(segs)
+        hoisted: List[Any] = []
         try:
-            return [(st, L.lt_map(src, f))]
+            res = L.lt_map(src, f)
         except L.ShapeMismatch as sm:
             raise Unsupported(str(sm))
+        for ax_, binds in hoisted:
+            vs = [b[1] for b in binds]
+            st.assume(z3.ForAll(vs, ax_) if vs else ax_, axiom=True)
+        return [(st, res)]
 
 
 class _Sentinel:
